@@ -73,7 +73,7 @@ def _u(*groups):
 RULES = {
     "C01": _u(SCHED, LINKDATA, TIMEAD, ("R40c", link.r40c_shared_conduit), ("R06s", life.r06s_start_time), ("R14", connect.r14_doublepush), ("R16", data.r16_getinfo), ("R11i", connect.r11_initial_pull)),
     "C02": _u(SCHED, ("R30", link.r30_delay)),
-    "C03": _u(LIFE, SCHED, CONNECT, ("R42a", misc.r42a_fresh_copy), ("R16", data.r16_getinfo), ("R30", link.r30_delay)),
+    "C03": _u(("R05t", sched.r05t_terminate), LIFE, SCHED, CONNECT, ("R42a", misc.r42a_fresh_copy), ("R16", data.r16_getinfo), ("R30", link.r30_delay)),
     "C04": _u(SCHED, CONNECT, ("R30", link.r30_delay), ("R16", data.r16_getinfo), ("R29i", integ.r29i_initial_value)),
     "C06": _u(CONNECT, LIFE, ("R17p", link.r17_pushpath), ("R15", data.r15_fields), ("R16", data.r16_getinfo)),
     "C07": _u(META, ("R11", connect.r11_r12_connect), ("R11r", connect.r11r_rules), ("R13", connect.r13_nodata),
@@ -109,7 +109,7 @@ RULES = {
 SCHED_PROPS = {"C01", "C02", "C04", "C13", "C20", "C03"}
 
 TEXTS = {'C01': 'Static, clause level: (R01) every in-repo time component pulls in _update exactly at the time next_time announced before the update (two consecutive abstract updates over a symbolic clock with uninterpreted calendar arithmetic; syntactic clock terms only where a body is outside the vocabulary); (R02) the dependency walk of _find_dependencies, abstractly interpreted over all chains of adapter kinds (length <= 3 quick / 5 thorough, time-stepped and pull-based owners, shared outputs, static outputs), demands from the source exactly the time the data path requests; (R03) the decision table of one scheduling step over 16 small topologies updates a component only when none of its transitive dependencies (through pull-based components) lags; (R17/R04) refusals of outputs and check_time are the exact complement of the strict lag test. NOT decided: truthfulness of third-party components, positivity of steps.',
-    'C02': "Static: (R05) the run loop hands exactly one arg-min-of-time component per iteration to the scheduling step, update() has one call site, the strict termination test guards the back edge and ignores finished components; (R02) assumed time == requested time for every adapter-kind chain incl. accumulated delays and strict lag test; (R03) the step's decision table only ever updates the start component or a component reached through lagging links. NOT decided: optimality of the whole schedule.", 'C03': 'Static: (R06) life-cycle calls occur in the order initialize/connect/validate/update/finalize on every path of Composition, each followed by a status check, finalize post-dominates the loop, adapters are held in a set and finalized at one call site, SDK wrappers call their hook exactly once; (R07) status tables of wrappers, hooks and driver agree (FINISHED kept, accepted, not selected); (R08) every in-repo time component advances its clock exactly once per update; (R05/R03) scripted runs of the real constructor / connect / run: every step starts from a least-advanced unfinished component, no step is started once all are finished or at the end time (also when all are beyond it from the start), the run finalizes; (R42) the in-repo forwarding component publishes a copy of what it pulled (a re-published stored array is refused by the output and aborts a valid run). NOT decided: finiteness (needs positive steps), final times.',
+    'C02': "Static: (R05) the run loop hands exactly one arg-min-of-time component per iteration to the scheduling step, update() has one call site, the strict termination test guards the back edge and ignores finished components; (R02) assumed time == requested time for every adapter-kind chain incl. accumulated delays and strict lag test; (R03) the step's decision table only ever updates the start component or a component reached through lagging links. NOT decided: optimality of the whole schedule.", 'C03': 'Static: (R06) life-cycle calls occur in the order initialize/connect/validate/update/finalize on every path of Composition, each followed by a status check, finalize post-dominates the loop, adapters are held in a set and finalized at one call site, SDK wrappers call their hook exactly once; (R07) status tables of wrappers, hooks and driver agree (FINISHED kept, accepted, not selected); (R08) every in-repo time component advances its clock exactly once per update; (R05/R05t/R03) scripted runs of the real constructor / connect / run: every step starts from a least-advanced unfinished component, no step is started once all are finished or at the end time (also when all are beyond it from the start), the run finalizes; (R42) the in-repo forwarding component publishes a copy of what it pulled (a re-published stored array is refused by the output and aborts a valid run). NOT decided: finiteness (needs positive steps), final times.',
     'C04': 'Static: (R09) cycle test dominates every recursive call, the same chain object is passed, and the decision table over cyclic / diamond topologies (direct, through pull-based components, with delay / no-dependency adapters) raises FinamCircularCouplingError exactly for cycles of lagging links and nothing else (no TypeError, no false cycle); (R10) the connect loop, run against scripted component statuses, ends iff all connect and raises the circular-coupling error listing exactly the stuck components as soon as an iteration makes no progress; (R10b) every in-repo _connect reaches try_connect; (R02) delays split over several adapters accumulate. NOT decided: the arithmetic sufficiency of delays vs. steps.',
     'C06': 'Static: (R11/R12) ConnectHelper.connect, abstractly interpreted against 30 scripted peers (each exchange succeeding at its own attempt), reports CONNECTED iff every declared exchange is done, CONNECTING iff something new was exchanged in this call, else CONNECTING_IDLE, never repeats an exchange, and pulls initial data for the composition start; (R13) only FinamNoDataError is swallowed and no state change precedes a possible FinamNoDataError on the exchange path; (R14) initial data is published for composition start and producer start (fresh copy); (R10/R10b) connect loop terminates / lists stuck components. NOT decided: user _connect hooks, convergence speed.',
     'C07': 'Static: (R15) decision table of Info.accepts (every incompatible field recorded, unset fields tolerated only from downstream), both directions checked with a conflict ending in FinamMetaDataError, Output.get_info fills unset fields before counting the exchange; (R16) abstract runs of the public get_info() of every concrete adapter against a scripted source: exactly one request reaches the source, it carries the time and units of the consumer (or leaves them open), the delivered info carries the time and meta data of the source; ValueToGrid asks for grid-less data and refuses a conflicting grid, GridToValue leaves the grid open; (R37) mask acceptance table; (R41) no mask value in a truth context; (R34) merged input info and transform direction. NOT decided: numeric grid compatibility (np.allclose on coordinates) and unit dimensionality (pint).',
